@@ -33,7 +33,9 @@ static entry* xv_cell(struct gca* self, size_t b, size_t o) {
   xv_scratch = nondet_uptr(); return &xv_scratch;
 }
 #define XV_CELL(self, b, o) (*xv_cell(self, b, o))
-#define XV_NEW_BUCKET(self, idx, n) do { XV_OBL("gca.get_entry.in_bounds", (idx) < NUM_BUCKETS && (n) == bucket_size(idx)); } while (0)
+_Bool in_alloc_fails; size_t new_bucket_idx;
+#define XV_EXC_std__bad_alloc 3
+#define XV_NEW_BUCKET(self, idx, n) do { if (in_alloc_fails) { xv_threw = XV_EXC_std__bad_alloc; } else { new_bucket_idx = (idx); XV_OBL("gca.get_entry.in_bounds", (idx) < NUM_BUCKETS && (n) == bucket_size(idx)); } } while (0)
 #define max_capacity (XV_MAX_CAPACITY_DEFAULT)     /* template parameter MaxCapacity: its default, extracted from the header */
 #define num_buckets NUM_BUCKETS
 
@@ -117,7 +119,20 @@ void h_getput(void) {
   if (congruent) XV_CANARY("getput.same"); else XV_CANARY("getput.other");
 }
 
+void h_grow_alloc_fails(void) {
+  struct gca g; in_c = nondet_uint(); havoc_gca(&g, in_c); XV_ASSUME(in_c <= 30);
+  in_top = nondet_size(); in_bottom = nondet_size(); in_gj = nondet_size(); in_gjv = nondet_uptr();
+  size_t cap0 = g._capacity;
+  XV_ASSUME(in_bottom >= in_top && in_bottom - in_top == cap0 && in_gj >= in_top && in_gj < in_bottom);
+  slot_of(in_gj, cap0, &gA_b, &gA_o); gB_b = NUM_BUCKETS; gB_o = 0; gA_v = in_gjv;
+  mon_cap_addr = &g._capacity; mon_cap_stored = 0; mon_cell_store_after_cap = 0; mon_cap_store_order = -1;
+  in_alloc_fails = 1; xv_threw = 0;
+  gca_grow(&g, in_bottom, in_top);
+  XV_OBL("gca.grow.alloc_failure_safe", xv_threw == XV_EXC_std__bad_alloc && g._buckets == in_c + 1 && g._capacity == cap0 && !mon_cap_stored && gA_v == in_gjv);
+  XV_CANARY("grow.alloc_failed");
+}
 void h_grow(void) {
+  in_alloc_fails = 0; xv_threw = 0;
   struct gca g; in_c = nondet_uint(); havoc_gca(&g, in_c); XV_ASSUME(in_c <= 30);     /* grow doubles: up to 2^30 -> 2^31 */
 #ifdef XV_TRACE_SMALL
   XV_ASSUME(in_c <= 4); /* counterexample extraction only: the replay program instantiates 2^1..2^10 */
